@@ -13,6 +13,15 @@ REPO_ROOT = os.environ.get("PYVC_REPO", "/repo")
 PKG = "pydsdl"
 
 
+# Specification-side driver modules (assumed traversal contracts written as code that calls the real functions); they are
+# read with `ast` exactly like the repository sources.  module name -> path
+EXTRA_SOURCES: Dict[str, str] = {}
+
+
+def register_extra_source(modname: str, path: str) -> None:
+    EXTRA_SOURCES[modname] = path
+
+
 class FuncInfo:
     def __init__(self, qualname: str, node: ast.AST, module: "ModuleInfo", cls: Optional["ClassInfo"], outer=None):
         self.qualname = qualname
@@ -170,6 +179,12 @@ class Repo:
                 mi = ModuleInfo(rel, full, tree, is_pkg)
                 self.modules[rel] = mi
                 self._index_module(mi)
+        for modname, path in sorted(EXTRA_SOURCES.items()):
+            with open(path, "r", encoding="utf8") as f:
+                tree = ast.parse(f.read(), filename=path)
+            mi = ModuleInfo(modname, path, tree, False)
+            self.modules[modname] = mi
+            self._index_module(mi)
 
     def _index_module(self, mi: ModuleInfo) -> None:
         for st in mi.tree.body:
